@@ -457,8 +457,12 @@ def dict_set(st, d, key, val):
     kk = st.coerce(key, kt).z
     vv = st.coerce(val, vt).z
     present = z3.Select(has, kk)
-    nkeys = SeqV(z3.If(present, keys.arr, z3.Store(keys.arr, keys.n, kk)),
-                 z3.If(present, keys.n, keys.n + 1))
+    # fresh names (terms with if-then-else cannot be used inside quantifier patterns)
+    na = st.fresh(keys.arr.sort(), 'dk_a')
+    nn = st.fresh(I, 'dk_n')
+    st.assume(na == z3.If(present, keys.arr, z3.Store(keys.arr, keys.n, kk)))
+    st.assume(nn == z3.If(present, keys.n, keys.n + 1))
+    nkeys = SeqV(na, nn)
     st.dict_store(d.z, kt, vt, nkeys, z3.Store(mp, kk, vv), z3.Store(has, kk, True))
 
 
